@@ -153,3 +153,94 @@ std_stubs! {
         std::mem::forget(other);
     }
 }
+
+// ---- ReCompiler::no_ambiguity: when may `X*` stop backtracking? -------------
+// Soundness conditions the non-backtracking rewrite relies on: never when the
+// next term can match the empty string (a repeat with min 0), never when the
+// first sets overlap; for reluctant repeats never before the end of the program.
+fn rep_next(kind: u8, letter: char, min: usize, max: usize) -> Operation {
+    let child = Operation::from(Atom::new(vec![letter]));
+    match kind {
+        0 => Operation::from(GreedyFixed::new(child, min, max, 1)),
+        1 => Operation::from(ReluctantFixed::new(child, min, max, 1)),
+        2 => Operation::from(UnambiguousRepeat::new(child, min, max)),
+        3 => Operation::from(Repeat::new(child, min, max, true)),
+        _ => Operation::from(Repeat::new(child, min, max, false)),
+    }
+}
+
+fn f_no_ambiguity_nullable(kind: u8) {
+    let op0 = Operation::from(Atom::new(vec!['a']));
+    let unbounded: bool = kani::any();
+    let op1 = rep_next(kind, 'b', 0, if unbounded { usize::MAX } else { 1 });
+    let case_blind: bool = kani::any();
+    let reluctant: bool = kani::any();
+    kani::cover!(unbounded && !reluctant, "star after a greedy repeat");
+    kani::cover!(!unbounded && case_blind, "optional term, case-blind");
+    let r = crate::re_compiler::ReCompiler::no_ambiguity(&op0, &op1, case_blind, reluctant);
+    kani::assert(!r, "C08.no-ambiguity.never-before-a-term-that-can-match-empty");
+    std::mem::forget(op0);
+    std::mem::forget(op1);
+}
+
+//@ harness: f_no_ambiguity_nullable_greedyfixed
+//@ props: C08 C01
+//@ tier: quick
+//@ cost: 60
+//@ bound: ReCompiler::no_ambiguity(Atom['a'], GreedyFixed over Atom['b'] with min = 0 and max in {1, unbounded}, case_blind, reluctant), all flag combinations: must be false - the next term can match the empty string, so the repeat before it has to keep backtracking
+//@ encodes: ReCompiler::no_ambiguity Operation::repeat_operation
+icu_stubs! { #[kani::unwind(12)] pub(crate) fn f_no_ambiguity_nullable_greedyfixed() { f_no_ambiguity_nullable(0) } }
+
+//@ harness: f_no_ambiguity_nullable_reluctantfixed
+//@ props: C08 C01
+//@ tier: quick
+//@ cost: 60
+//@ bound: ReCompiler::no_ambiguity(Atom['a'], ReluctantFixed over Atom['b'] with min = 0 and max in {1, unbounded}, case_blind, reluctant), all flag combinations: must be false - the next term can match the empty string, so the repeat before it has to keep backtracking
+//@ encodes: ReCompiler::no_ambiguity Operation::repeat_operation
+icu_stubs! { #[kani::unwind(12)] pub(crate) fn f_no_ambiguity_nullable_reluctantfixed() { f_no_ambiguity_nullable(1) } }
+
+//@ harness: f_no_ambiguity_nullable_unambiguous
+//@ props: C08 C01
+//@ tier: quick
+//@ cost: 60
+//@ bound: ReCompiler::no_ambiguity(Atom['a'], UnambiguousRepeat over Atom['b'] with min = 0 and max in {1, unbounded}, case_blind, reluctant), all flag combinations: must be false - the next term can match the empty string, so the repeat before it has to keep backtracking
+//@ encodes: ReCompiler::no_ambiguity Operation::repeat_operation
+icu_stubs! { #[kani::unwind(12)] pub(crate) fn f_no_ambiguity_nullable_unambiguous() { f_no_ambiguity_nullable(2) } }
+
+//@ harness: f_no_ambiguity_nullable_repeat_greedy
+//@ props: C08 C01
+//@ tier: quick
+//@ cost: 60
+//@ bound: ReCompiler::no_ambiguity(Atom['a'], greedy variable Repeat over Atom['b'] with min = 0 and max in {1, unbounded}, case_blind, reluctant), all flag combinations: must be false - the next term can match the empty string, so the repeat before it has to keep backtracking
+//@ encodes: ReCompiler::no_ambiguity Operation::repeat_operation
+icu_stubs! { #[kani::unwind(12)] pub(crate) fn f_no_ambiguity_nullable_repeat_greedy() { f_no_ambiguity_nullable(3) } }
+
+//@ harness: f_no_ambiguity_nullable_repeat_reluctant
+//@ props: C08 C01
+//@ tier: quick
+//@ cost: 60
+//@ bound: ReCompiler::no_ambiguity(Atom['a'], reluctant variable Repeat over Atom['b'] with min = 0 and max in {1, unbounded}, case_blind, reluctant), all flag combinations: must be false - the next term can match the empty string, so the repeat before it has to keep backtracking
+//@ encodes: ReCompiler::no_ambiguity Operation::repeat_operation
+icu_stubs! { #[kani::unwind(12)] pub(crate) fn f_no_ambiguity_nullable_repeat_reluctant() { f_no_ambiguity_nullable(4) } }
+
+//@ harness: f_no_ambiguity_end
+//@ props: C08
+//@ tier: quick
+//@ cost: 30
+//@ bound: ReCompiler::no_ambiguity(Atom['a'], EndProgram, case_blind, reluctant), all flag combinations: true iff the repeat is greedy (a reluctant repeat before the end must keep backtracking)
+//@ encodes: ReCompiler::no_ambiguity
+icu_stubs! {
+    #[kani::unwind(12)]
+    pub(crate) fn f_no_ambiguity_end() {
+        let op0 = Operation::from(Atom::new(vec!['a']));
+        let op1 = Operation::from(EndProgram);
+        let case_blind: bool = kani::any();
+        let reluctant: bool = kani::any();
+        kani::cover!(reluctant, "reluctant repeat before the end of the program");
+        kani::cover!(!reluctant, "greedy repeat before the end of the program");
+        let r = crate::re_compiler::ReCompiler::no_ambiguity(&op0, &op1, case_blind, reluctant);
+        kani::assert(r == !reluctant, "C08.no-ambiguity.reluctant-repeat-must-backtrack-before-end");
+        std::mem::forget(op0);
+        std::mem::forget(op1);
+    }
+}
